@@ -512,3 +512,10 @@ package hotline
 //@   property C07
 //@   requires inroot(fullPath) && fullPath != ROOT
 //@   before call hotline.NewFileWrapper assert inroot(arg1)
+
+// C18: the article list is built by draining each entry completely (io.ReadAll), never with one
+// bare Read into a fixed buffer.
+//@ func (newscat *NewsCategoryListData15) GetNewsArtListData() (r NewsArtListData)
+//@   property C18
+//@   before call (*hotline.NewsArtList).Read assert false
+//@   before call io.ReadAll assert reader_kind(arg0) == 3
